@@ -14,10 +14,14 @@ constants**).  Model: `ClvmModel/Interp/Ops.lean` (frozen; in differential corre
   (`documentedCost`: all 28 operators that can succeed).
 * `path_cost`, `path_fast_cost`: environment lookups; `sha256tree_cost`: restated from C22.
 `x` (raise) never succeeds (`raise_never_succeeds`).
+* cryptographic operators (`ClvmModel/Crypto/Ops.lean`, spec `ClvmModel/Spec/CostCrypto.lean`):
+  `crypto_constants_pinned`, `cost_formula_g1_map` … `cost_formula_bls_verify` (every flag set, budget,
+  argument tree); `g1_map`/`g2_map` distinguish "DST absent" (43 default bytes) from "DST present and empty" (0).
 -/
 import ClvmProofs.Lemmas.Interp.CostArith
 import ClvmProofs.Lemmas.TreeHash
 import ClvmProofs.Lemmas.Interp.CostDoc
+import ClvmProofs.Lemmas.CryptoCost
 
 namespace Clvm.Props.C10
 open Clvm Clvm.Alloc Clvm.Interp
@@ -440,5 +444,151 @@ theorem doc_agrees_log (f : Int → Int → Int) (init : Int) (args : List Val) 
 /-- the agreement region is inhabited: `(+ 1 2)` is tight -/
 example : Spec.CostDoc.Tight (h [1]) ∧ Spec.CostDoc.Tight (h [2]) := by
   constructor <;> (unfold Spec.CostDoc.Tight; decide +kernel)
+
+/-! ### cryptographic operators
+
+Model: `ClvmModel/Crypto/Ops.lean` (in differential correspondence with the crate on the `crypto` stream);
+formulas: `ClvmModel/Spec/CostCrypto.lean` (pinned literals); proofs: `ClvmProofs/Lemmas/CryptoCost.lean`.
+`CryptoCost.CostOK f spec`: for every flag set, budget and argument tree, a successful call of `f` charges
+`spec (newCostModel flags) (argList args)`. -/
+
+/-- every generated cost constant of the crypto operators (`Gen.Crypto.*`, re-extracted from the Rust
+sources on every run) equals the pinned literal `Spec.CostCrypto` uses — a retuned constant breaks this -/
+theorem crypto_constants_pinned :
+
+    Gen.Crypto.flagNewCostModel = 0x2000 ∧
+    Gen.Crypto.mallocCostPerByte = 10 ∧
+    Gen.Crypto.blsG1SubtractBaseCost = 101094 ∧
+    Gen.Crypto.blsG1SubtractCostPerArg = 1343980 ∧
+    Gen.Crypto.blsG1MultiplyBaseCost = 705500 ∧
+    Gen.Crypto.blsG1MultiplyCostPerByte = 10 ∧
+    Gen.Crypto.newBlsG1MultiplyBaseCost = 1900000 ∧
+    Gen.Crypto.newBlsG1MultiplyCostPerByte = 24 ∧
+    Gen.Crypto.blsG1NegateBaseCost = 916 ∧
+    Gen.Crypto.blsG2AddBaseCost = 80000 ∧
+    Gen.Crypto.blsG2AddCostPerArg = 1950000 ∧
+    Gen.Crypto.blsG2SubtractBaseCost = 80000 ∧
+    Gen.Crypto.blsG2SubtractCostPerArg = 1950000 ∧
+    Gen.Crypto.blsG2MultiplyBaseCost = 2100000 ∧
+    Gen.Crypto.blsG2MultiplyCostPerByte = 5 ∧
+    Gen.Crypto.newBlsG2MultiplyBaseCost = 3000000 ∧
+    Gen.Crypto.newBlsG2MultiplyCostPerByte = 23 ∧
+    Gen.Crypto.blsG2NegateBaseCost = 1204 ∧
+    Gen.Crypto.blsMapToG1BaseCost = 195000 ∧
+    Gen.Crypto.blsMapToG1CostPerByte = 4 ∧
+    Gen.Crypto.blsMapToG1CostPerDstByte = 4 ∧
+    Gen.Crypto.newBlsMapToG1BaseCost = 700000 ∧
+    Gen.Crypto.newBlsMapToG1CostPerByte = 3 ∧
+    Gen.Crypto.newBlsMapToG1CostPerDstByte = 2 ∧
+    Gen.Crypto.blsMapToG2BaseCost = 815000 ∧
+    Gen.Crypto.blsMapToG2CostPerByte = 4 ∧
+    Gen.Crypto.blsMapToG2CostPerDstByte = 4 ∧
+    Gen.Crypto.newBlsMapToG2BaseCost = 2700000 ∧
+    Gen.Crypto.newBlsMapToG2CostPerByte = 3 ∧
+    Gen.Crypto.newBlsMapToG2CostPerDstByte = 2 ∧
+    Gen.Crypto.blsPairingBaseCost = 3000000 ∧
+    Gen.Crypto.blsPairingCostPerArg = 1200000 ∧
+    Gen.Crypto.newBlsPairingBaseCost = 1000000 ∧
+    Gen.Crypto.newBlsPairingCostPerArg = 5000000 ∧
+    Gen.Crypto.dstG1.length = 43 ∧
+    Gen.Crypto.dstG2.length = 43 ∧
+    Gen.Crypto.pointAddBaseCost = 101094 ∧
+    Gen.Crypto.pointAddCostPerArg = 1343980 ∧
+    Gen.Crypto.pubkeyBaseCost = 1325730 ∧
+    Gen.Crypto.pubkeyCostPerByte = 38 ∧
+    Gen.Crypto.coinidCost = 480 ∧
+    Gen.Crypto.newCoinidCost = 1759 ∧
+    Gen.Crypto.keccak256BaseCost = 50 ∧
+    Gen.Crypto.keccak256CostPerArg = 160 ∧
+    Gen.Crypto.keccak256CostPerByte = 2 ∧
+    Gen.Crypto.newKeccak256BaseCost = 2350 ∧
+    Gen.Crypto.newKeccak256CostPerArg = 100 ∧
+    Gen.Crypto.newKeccak256CostPerByte = 10 ∧
+    Gen.Crypto.secp256r1VerifyCost = 1850000 ∧
+    Gen.Crypto.secp256k1VerifyCost = 1300000 :=
+  CryptoCost.crypto_constants_pinned
+
+/-- `g1_map` (`op_bls_map_to_g1`): base + msg_len·per_byte + dst_len·dst_per_byte + 480; an absent DST counts the 43-byte default, an explicit empty DST counts 0 -/
+theorem cost_formula_g1_map (hash : Bytes → Bytes → Crypto.Bls.G1) : CryptoCost.CostOK (Crypto.Ops.opBlsMapToG1 hash) Spec.CostCrypto.opG1Map :=
+  CryptoCost.g1_map hash
+
+/-- `g2_map` (`op_bls_map_to_g2`): base + msg_len·per_byte + dst_len·dst_per_byte + 960; absent DST = 43 bytes, explicit empty DST = 0 -/
+theorem cost_formula_g2_map (hash : Bytes → Bytes → Crypto.Bls.G2) : CryptoCost.CostOK (Crypto.Ops.opBlsMapToG2 hash) Spec.CostCrypto.opG2Map :=
+  CryptoCost.g2_map hash
+
+/-- `point_add` / `g1_add` (`op_point_add`): 101094 + n·1343980 + 480 -/
+theorem cost_formula_g1_add : CryptoCost.CostOK Crypto.Ops.opPointAdd Spec.CostCrypto.opG1Add :=
+  CryptoCost.g1_add
+
+/-- `g1_subtract`: 101094 + n·1343980 + 480 -/
+theorem cost_formula_g1_subtract : CryptoCost.CostOK Crypto.Ops.opBlsG1Subtract Spec.CostCrypto.opG1Subtract :=
+  CryptoCost.g1_subtract
+
+/-- `g2_add`: 80000 + n·1950000 + 960 -/
+theorem cost_formula_g2_add : CryptoCost.CostOK Crypto.Ops.opBlsG2Add Spec.CostCrypto.opG2Add :=
+  CryptoCost.g2_add
+
+/-- `g2_subtract`: 80000 + n·1950000 + 960 -/
+theorem cost_formula_g2_subtract : CryptoCost.CostOK Crypto.Ops.opBlsG2Subtract Spec.CostCrypto.opG2Subtract :=
+  CryptoCost.g2_subtract
+
+/-- `g1_multiply`: base + scalar_len·per_byte + 480 (both models) -/
+theorem cost_formula_g1_multiply : CryptoCost.CostOK Crypto.Ops.opBlsG1Multiply Spec.CostCrypto.opG1Multiply :=
+  CryptoCost.g1_multiply
+
+/-- `g2_multiply`: base + scalar_len·per_byte + 960 (both models) -/
+theorem cost_formula_g2_multiply : CryptoCost.CostOK Crypto.Ops.opBlsG2Multiply Spec.CostCrypto.opG2Multiply :=
+  CryptoCost.g2_multiply
+
+/-- `g1_negate`: 916 + 480, strict and relaxed, also when the argument itself is returned -/
+theorem cost_formula_g1_negate : CryptoCost.CostOK Crypto.Ops.opBlsG1Negate Spec.CostCrypto.opG1Negate :=
+  CryptoCost.g1_negate
+
+/-- `g2_negate`: 1204 + 960 -/
+theorem cost_formula_g2_negate : CryptoCost.CostOK Crypto.Ops.opBlsG2Negate Spec.CostCrypto.opG2Negate :=
+  CryptoCost.g2_negate
+
+/-- `pubkey_for_exp`: 1325730 + len·38 + 480 -/
+theorem cost_formula_pubkey_for_exp : CryptoCost.CostOK Crypto.Ops.opPubkeyForExp Spec.CostCrypto.opPubkeyForExp :=
+  CryptoCost.pubkey_for_exp
+
+/-- `coinid`: flat 480 (new model 1759) + 320 -/
+theorem cost_formula_coinid : CryptoCost.CostOK Crypto.Ops.opCoinid Spec.CostCrypto.opCoinid :=
+  CryptoCost.coinid
+
+/-- `keccak256`: base + n_args·per_arg + total_bytes·per_byte + 320 (the digest of the model is 32 bytes: `CryptoCost.keccak256_length`) -/
+theorem cost_formula_keccak256 : CryptoCost.CostOK Crypto.Ops.opKeccak256 Spec.CostCrypto.opKeccak256 :=
+  CryptoCost.keccak256
+
+/-- `secp256k1_verify`: flat 1300000 -/
+theorem cost_formula_secp256k1_verify : CryptoCost.CostOK Crypto.Ops.opSecp256k1Verify Spec.CostCrypto.opSecp256k1Verify :=
+  CryptoCost.secp256k1_verify
+
+/-- `secp256r1_verify`: flat 1850000 -/
+theorem cost_formula_secp256r1_verify : CryptoCost.CostOK Crypto.Ops.opSecp256r1Verify Spec.CostCrypto.opSecp256r1Verify :=
+  CryptoCost.secp256r1_verify
+
+/-- `bls_pairing_identity`: base + n_pairs·per_arg -/
+theorem cost_formula_bls_pairing_identity (ap : List (Crypto.Bls.G1 × Crypto.Bls.G2) → Bool) : CryptoCost.CostOK (Crypto.Ops.opBlsPairingIdentity ap) Spec.CostCrypto.opPairingIdentity :=
+  CryptoCost.pairing_identity ap
+
+/-- `bls_verify`: base + Σ over (pk, msg) pairs of (per_arg + msg_len·g2_map_per_byte + 43·g2_map_dst_per_byte) -/
+theorem cost_formula_bls_verify (av : Crypto.Bls.G2 → List (Crypto.Bls.G1 × Bytes) → Bool) : CryptoCost.CostOK (Crypto.Ops.opBlsVerify av) Spec.CostCrypto.opBlsVerify :=
+  CryptoCost.bls_verify av
+
+/-- `g1_map` / `g2_map`: "no DST argument" and "DST argument present and empty" are charged differently
+(43 default bytes vs 0 bytes) -/
+theorem cost_formula_map_absent_vs_empty_dst (nm : Bool) (msgLen : Nat) :
+    Spec.CostCrypto.g1Map nm msgLen none = Spec.CostCrypto.g1Map nm msgLen (some 0) + 43 * (if nm then 2 else 4) ∧
+    Spec.CostCrypto.g2Map nm msgLen none = Spec.CostCrypto.g2Map nm msgLen (some 0) + 43 * (if nm then 2 else 4) :=
+  CryptoCost.map_absent_vs_empty_dst nm msgLen
+
+/-- not vacuous, and the two DST cases are told apart by the model itself: `(g1_map "ab")` vs
+`(g1_map "ab" "")` under the old model (the cost does not depend on the hash-to-curve function) -/
+example :
+    ((Crypto.Ops.opBlsMapToG1 (fun _ _ => none) 0 10000000 (.pair (.atom [0x61, 0x62]) Tree.nil)).toOption.map (·.cost),
+     (Crypto.Ops.opBlsMapToG1 (fun _ _ => none) 0 10000000 (.pair (.atom [0x61, 0x62]) (.pair (.atom []) Tree.nil))).toOption.map (·.cost))
+      = (some (195000 + 2 * 4 + 43 * 4 + 480), some (195000 + 2 * 4 + 0 + 480)) := by
+  decide +kernel
 
 end Clvm.Props.C10
